@@ -26,9 +26,106 @@ pub enum Op {
     /// a pack file (FE9/10) or an arc file (3DS) written as bytes, then read through the typed helper
     Container { path: String, files: Vec<(String, Vec<u8>)>, localized: bool },
     /// read_text_archive(path) -> edit WITHOUT set_message (set_title and/or delete_message) -> write_text_archive(path) -> read again
-    TextEdit { path: String, new_title: Option<String>, delete: Option<u16>, localized: bool },
+    /// `back` > 0: the target (path and localisation choice) is that of the (back-1 mod i)-th earlier operation of the case
+    TextEdit {
+        path: String,
+        new_title: Option<String>,
+        delete: Option<u16>,
+        localized: bool,
+        #[serde(default)]
+        back: u8,
+    },
     /// a texture container (CTPK / BCH / CGFX / TPL by index) written as bytes, then read through the typed texture helper
     Textures { path: String, container: u8, count: u8, seed: u64, localized: bool },
+    /// a typed reader (0 bin archive, 1 text archive, 2 pack, 3 arc, 4 CTPK, 5 BCH, 6 CGFX, 7 TPL) on whatever is at `path`: missing,
+    /// garbage, or a file of another kind left there by an earlier operation
+    /// (`back` as for TextEdit)
+    TypedRead {
+        path: String,
+        kind: u8,
+        localized: bool,
+        #[serde(default)]
+        back: u8,
+    },
+}
+impl Op {
+    fn target(&self) -> (&String, bool) {
+        match self {
+            Op::Write { path, localized, .. }
+            | Op::Read { path, localized }
+            | Op::Exists { path, localized }
+            | Op::FileExists { path, localized }
+            | Op::DirectoryExists { path, localized }
+            | Op::Resolve { path, localized }
+            | Op::CreateDir { path, localized }
+            | Op::Archive { path, localized, .. }
+            | Op::Text { path, localized, .. }
+            | Op::Container { path, localized, .. }
+            | Op::TextEdit { path, localized, .. }
+            | Op::Textures { path, localized, .. }
+            | Op::TypedRead { path, localized, .. } => (path, *localized),
+        }
+    }
+}
+/// the target of operation `i`: its own, or (back > 0) that of an earlier operation
+fn effective<'a>(ops: &'a [Op], i: usize, back: u8) -> (&'a String, bool) {
+    if back > 0 && i > 0 {
+        ops[(back as usize - 1) % i].target()
+    } else {
+        ops[i].target()
+    }
+}
+
+/// what a typed reader returned, in comparable form (ordered where the API's result is ordered, sorted where it is a hash map)
+type Summary = Vec<(String, Vec<u8>)>;
+fn tex_summary(mut v: Vec<mila::Texture>, sort: bool) -> Summary {
+    if sort {
+        v.sort_by(|a, b| a.filename.cmp(&b.filename));
+    }
+    v.into_iter().map(|t| (t.filename, [&(t.width as u64).to_le_bytes()[..], &(t.height as u64).to_le_bytes()[..], &t.pixel_data[..]].concat())).collect()
+}
+fn archive_summary(a: &mila::BinArchive) -> Result<Summary, String> {
+    crate::gen::archive::observe(a).map(|o| vec![("archive".to_string(), format!("{o:?}").into_bytes())])
+}
+fn text_summary(t: &TextArchive) -> Summary {
+    let mut v = vec![("#title".to_string(), t.get_title().as_bytes().to_vec())];
+    v.extend(t.get_entries().iter().map(|(k, m)| (k.clone(), m.as_bytes().to_vec())));
+    v
+}
+/// the game's codec applied directly to `bytes`
+fn direct_typed(kind: u8, bytes: &[u8], be: bool) -> Result<Summary, String> {
+    let endian = if be { Endian::Big } else { Endian::Little };
+    let fmt = if be { TextArchiveFormat::ShiftJIS } else { TextArchiveFormat::Unicode };
+    match kind % 8 {
+        0 => mila::BinArchive::from_bytes(bytes, endian).map_err(|e| e.to_string()).and_then(|a| archive_summary(&a)),
+        1 => TextArchive::from_bytes(bytes, fmt, endian).map_err(|e| e.to_string()).map(|t| text_summary(&t)),
+        2 => mila::fe9_arc::parse(bytes).map_err(|e| e.to_string()).map(|m| m.into_iter().collect()),
+        3 => mila::arc::from_bytes(bytes).map_err(|e| e.to_string()).map(|m| {
+            let mut v: Summary = m.into_iter().collect();
+            v.sort();
+            v
+        }),
+        4 => mila::ctpk::read(bytes).map_err(|e| e.to_string()).map(|v| tex_summary(v, true)),
+        5 => mila::bch::read(bytes).map_err(|e| e.to_string()).map(|v| tex_summary(v, true)),
+        6 => mila::cgfx::read(bytes).map_err(|e| e.to_string()).map(|v| tex_summary(v, true)),
+        _ => mila::tpl::Tpl::extract_textures(bytes).map_err(|e| e.to_string()).map(|v| tex_summary(v, false)),
+    }
+}
+fn via_typed(fs: &LayeredFilesystem, kind: u8, path: &str, localized: bool) -> Result<Summary, String> {
+    match kind % 8 {
+        0 => fs.read_archive(path, localized).map_err(|e| e.to_string()).and_then(|a| archive_summary(&a)),
+        1 => fs.read_text_archive(path, localized).map_err(|e| e.to_string()).map(|t| text_summary(&t)),
+        2 => fs.read_fe9_arc(path, localized).map_err(|e| e.to_string()).map(|m| m.into_iter().collect()),
+        3 => fs.read_arc(path, localized).map_err(|e| e.to_string()).map(|m| {
+            let mut v: Summary = m.into_iter().collect();
+            v.sort();
+            v
+        }),
+        4 => fs.read_ctpk_textures(path, localized).map_err(|e| e.to_string()).map(|m| tex_summary(m.into_values().collect(), true)),
+        5 => fs.read_bch_textures(path, localized).map_err(|e| e.to_string()).map(|m| tex_summary(m.into_values().collect(), true)),
+        6 => fs.read_cgfx_textures(path, localized).map_err(|e| e.to_string()).map(|m| tex_summary(m.into_values().collect(), true)),
+        _ => fs.read_tpl_textures(path, localized).map_err(|e| e.to_string()).map(|v| tex_summary(v, false)),
+    }
 }
 
 #[derive(Clone, Debug, Hash, Serialize, Deserialize)]
@@ -230,8 +327,11 @@ fn op_strategy() -> BoxedStrategy<Op> {
         1 => (p(), content_strategy(24, 4, 3, false), loc()).prop_map(|(path, content, localized)| Op::Archive { path, content, localized }),
         1 => (p(), "[a-z]{0,6}", proptest::collection::vec(("[A-Z]{1,5}", "[a-z ]{0,9}"), 0..4), loc()).prop_map(|(path, title, entries, localized)| Op::Text { path, title, entries, localized }),
         1 => (p(), proptest::collection::vec(("[a-z]{1,6}", proptest::collection::vec(any::<u8>(), 0..40)), 0..4), loc()).prop_map(|(path, files, localized)| Op::Container { path, files, localized }),
-        2 => (p(), proptest::option::of("[a-z]{0,5}"), proptest::option::of(any::<u16>()), loc()).prop_map(|(path, new_title, delete, localized)| Op::TextEdit { path, new_title, delete, localized }),
+        1 => (p(), proptest::option::of("[a-z]{0,5}"), proptest::option::of(any::<u16>()), loc()).prop_map(|(path, new_title, delete, localized)| Op::TextEdit { path, new_title, delete, localized, back: 0 }),
+        2 => (p(), proptest::option::of("[a-z]{0,5}"), proptest::option::of(any::<u16>()), 1u8..=12).prop_map(|(path, new_title, delete, back)| Op::TextEdit { path, new_title, delete, localized: false, back }),
         1 => (p(), 0u8..4, 0u8..3, any::<u64>(), loc()).prop_map(|(path, container, count, seed, localized)| Op::Textures { path, container, count, seed, localized }),
+        1 => (p(), 0u8..8, loc()).prop_map(|(path, kind, localized)| Op::TypedRead { path, kind, localized, back: 0 }),
+        4 => (p(), 0u8..8, 1u8..=12).prop_map(|(path, kind, back)| Op::TypedRead { path, kind, localized: false, back }),
     ]
     .boxed()
 }
@@ -242,7 +342,7 @@ impl Prop for C12 {
     fn rule() -> String {
         "Stateful on real directories (tmpfs sandbox, one per case): 1..=4 layers pre-populated from a tree generator over a small pool of plain components (so the same relative path occurs in several layers, as a file in one and a directory \
          in another; files with the game's compressed suffix hold reference-encoded streams, occasionally garbage), game in {FE9, FE10, FE13, FE14, FE15} x 8 languages, and a list of operations: write (payloads empty, 1..=3 bytes, compressible, incompressible, up to 8 KiB; \
-         localized or not), read, exists, file_exists, directory_exists, resolve, create_dir, write_archive+read_archive, write_text_archive+read_text_archive (also load -> set_title/delete_message -> save -> load, i.e. edits that never raise the dirty flag), a pack/arc container written as bytes and read through read_fe9_arc/read_arc, and CTPK/BCH/CGFX/TPL containers read through the typed texture readers; payloads may themselves be complete compressed streams; the layer directories are handed to LayeredFilesystem::new in canonical or equivalent non-canonical spellings (trailing slash, '/.', 'X/../X'). \
+         localized or not), read, exists, file_exists, directory_exists, resolve, create_dir, write_archive+read_archive, write_text_archive+read_text_archive (also load -> set_title/delete_message -> save -> load, i.e. edits that never raise the dirty flag), a pack/arc container written as bytes and read through read_fe9_arc/read_arc, CTPK/BCH/CGFX/TPL containers read through the typed texture readers, and every typed reader applied to an arbitrary path (missing, garbage, or a file of another kind left by an earlier operation: missing => error; otherwise the same outcome as the game's codec applied to the bytes read() must return); payloads may themselves be complete compressed streams; the layer directories are handed to LayeredFilesystem::new in canonical or equivalent non-canonical spellings (trailing slash, '/.', 'X/../X'). \
          Oracle: every layer directory is walked (std::fs) before and after each call. read = bytes of the top-most layer holding the (localised) path as a regular file, expanded by the reference LZ decoder when the requested name has the compressed suffix, else an error; \
          write Ok => all lower layers byte-identical, the top layer changes only at the target and its new parent directories, the stored bytes equal the payload or are a stream the reference reader accepts (LZ10 for FE9/10, 0x13-wrapped LZ11 for FE13-15) expanding to it, and an immediate read returns the payload; \
          write must succeed when the top layer has no file/directory conflict on the path; existence queries and resolve equal the same top-down search; typed helpers equal the byte-level call composed with the game's codec (checked by decoding the stored file with the reference bin reader: endianness, text encoding, compression). \
@@ -348,6 +448,17 @@ impl Prop for C12 {
         let snaps = sb.snapshots();
         let mut w = World { sb, fs, game, lang, snaps };
         let endian_be = is_lz10_game(game);
+        // the codec configured for the game, as the filesystem itself reports it
+        {
+            let e_ok = matches!((w.fs.endian(), endian_be), (mila::Endian::Big, true) | (mila::Endian::Little, false));
+            let t_ok = matches!((w.fs.text_archive_format(), endian_be), (mila::TextArchiveFormat::ShiftJIS, true) | (mila::TextArchiveFormat::Unicode, false));
+            let l_ok = format!("{:?}", w.fs.language()) == format!("{lang:?}");
+            if !cx.check(e_ok && t_ok && l_ok, "configured-codec-accessors", || {
+                format!("{game:?}/{lang:?}: endian() = {:?}, text_archive_format() = {:?}, language() = {:?}", w.fs.endian(), w.fs.text_archive_format(), w.fs.language())
+            }) {
+                return;
+            }
+        }
         let mut shadow_written: Vec<String> = Vec::new();
         for (i, op) in case.ops.iter().enumerate() {
             let name = format!("step {i} {game:?}/{lang:?} {}", {
@@ -359,6 +470,15 @@ impl Prop for C12 {
                 }
             });
             let top = w.snaps.len() - 1;
+            if (case.root_style as usize + i * 3) % 7 == 0 {
+                // a clone is the same filesystem (same layers, game and language): the rest of the history goes through it
+                let c = match cx.call(|| w.fs.clone()) {
+                    Some(c) => c,
+                    None => return,
+                };
+                w.fs = c;
+                cx.label("continued-through-a-clone");
+            }
             match op {
                 Op::Write { path, payload, localized } => {
                     let bytes = payload.bytes();
@@ -450,6 +570,63 @@ impl Prop for C12 {
                     // the same file, however the path is spelled
                     let canon = |p: &Option<std::path::PathBuf>| p.as_ref().map(|p| std::fs::canonicalize(p).unwrap_or_else(|_| p.clone()));
                     if !cx.check(canon(&res) == canon(&want), "resolve-searches-top-down", || format!("{name}: resolve returned {res:?}, expected {want:?}")) {
+                        return;
+                    }
+                }
+                Op::TypedRead { kind, back, .. } => {
+                    let (path, localized) = effective(&case.ops, i, *back);
+                    let localized = &localized;
+                    // "exactly that byte-level read composed with the codec configured for the game"
+                    match expected_read(&w, path, *localized) {
+                        Some(Err(())) => {
+                            let via = match cx.call(|| via_typed(&w.fs, *kind, path, *localized)) {
+                                Some(v) => v,
+                                None => return,
+                            };
+                            if !cx.check(via.is_err(), "typed-read-of-a-missing-file-is-an-error", || format!("{name}: no layer holds the file, the typed reader returned {} item(s)", via.as_ref().map(|v| v.len()).unwrap_or(0))) {
+                                return;
+                            }
+                            cx.label("typed-read:missing-file");
+                        }
+                        Some(Ok(bytes)) => match crate::engine::panics::catch(|| direct_typed(*kind, &bytes, endian_be)) {
+                            Err(_) => cx.label("typed-read:codec-panics-on-this-file(no-claim)"),
+                            Ok(direct) => {
+                                let via = match cx.call(|| via_typed(&w.fs, *kind, path, *localized)) {
+                                    Some(v) => v,
+                                    None => return,
+                                };
+                                // duplicate texture names collapse in the map-returning helpers: only the names are compared then
+                                let names = |s: &Summary| {
+                                    let mut n: Vec<String> = s.iter().map(|(k, _)| k.clone()).collect();
+                                    n.sort();
+                                    n.dedup();
+                                    n
+                                };
+                                let dup = matches!(kind % 8, 4..=6) && direct.as_ref().map(|d| names(d).len() != d.len()).unwrap_or(false);
+                                let same = match (&direct, &via) {
+                                    (Ok(d), Ok(v)) => {
+                                        if dup {
+                                            names(d) == names(v)
+                                        } else {
+                                            d == v
+                                        }
+                                    }
+                                    (Err(_), Err(_)) => true,
+                                    _ => false,
+                                };
+                                if !cx.check(same, "typed-helper-equals-read-plus-codec", || {
+                                    format!("{name}: the typed reader gives {:?}, the game's codec applied to the {} bytes that read() returns gives {:?}", via.as_ref().map(|v| v.iter().map(|(k, b)| (k.clone(), b.len())).collect::<Vec<_>>()), bytes.len(), direct.as_ref().map(|v| v.iter().map(|(k, b)| (k.clone(), b.len())).collect::<Vec<_>>()))
+                                }) {
+                                    return;
+                                }
+                                cx.label(if direct.is_ok() { "typed-read:file-the-codec-accepts" } else { "typed-read:file-the-codec-rejects" });
+                            }
+                        },
+                        None => {
+                            let _ = crate::engine::panics::catch(|| via_typed(&w.fs, *kind, path, *localized));
+                        }
+                    }
+                    if !w.settle(cx, &name, &[]) {
                         return;
                     }
                 }
@@ -631,7 +808,9 @@ impl Prop for C12 {
                         }
                     }
                 }
-                Op::TextEdit { path, new_title, delete, localized } => {
+                Op::TextEdit { new_title, delete, back, .. } => {
+                    let (path, localized) = effective(&case.ops, i, *back);
+                    let localized = &localized;
                     // only meaningful when a text archive can be read there
                     let before = match cx.call(|| w.fs.read_text_archive(path, *localized)) {
                         Some(Ok(t)) => t,
